@@ -183,6 +183,7 @@ type Eval struct {
 	sites            []ssa.Instruction                       // call sites of the module functions being evaluated (innermost last)
 	alts             map[ssa.Instruction]map[*Obj]altContent // per guarded call: object contents on its success / failure return
 	LoopHits         map[ssa.Instruction]bool                // per word lookup inside a loop: every path to the back edge passed its hit edge
+	outerLoop        *loopCtx                                // the summarised loop whose body made the call being evaluated
 }
 
 type LoopInfo struct {
@@ -1295,6 +1296,15 @@ func (e *Eval) evalInstrs(fr *frame, b *ssa.BasicBlock, instrs []ssa.Instruction
 			e.instr(fr, in, st)
 		}
 	}
+}
+
+// loopOf: the loop being summarised around the instruction under evaluation — of this frame,
+// or of the caller whose loop body made the call.
+func (e *Eval) loopOf(fr *frame) *loopCtx {
+	if fr.loop != nil {
+		return fr.loop
+	}
+	return e.outerLoop
 }
 
 func (e *Eval) afterLoop(fr *frame, b *ssa.BasicBlock) bool {
@@ -3384,10 +3394,10 @@ func (e *Eval) binop(fr *frame, x *ssa.BinOp) AV {
 		return e.topOf(x.Type(), "binop "+x.Op.String())
 	}
 	r := e.arith(fr, x, ia, ib)
-	if fr.loop != nil && r.Kind == ikTop && ia.Kind != ikTop && ib.Kind != ikTop {
+	if lp := e.loopOf(fr); lp != nil && r.Kind == ikTop && ia.Kind != ikTop && ib.Kind != ikTop {
 		// the summary (operands as functions of the iteration number) has no form for this
 		// operation; an iteration-by-iteration evaluation computes with the numbers themselves
-		fr.loop.imprecise = true
+		lp.imprecise = true
 	}
 	return e.fit(r, x.Type(), fr.T())
 }
